@@ -82,6 +82,37 @@ static void probe_fixes(int *polladd, int *sigdel, int *runtodo)
 	qb_loop_destroy(l);
 }
 
+/* (runs on the real kernel: epoll_ctl / epoll_wait are not redirected here) */
+#undef epoll_wait
+/* does the kernel's epoll behave as the harness' virtual interest list assumes? */
+static int probe_kernel(void)
+{
+	int ep = epoll_create1(EPOLL_CLOEXEC), a[2], b[2], ok = 1, n;
+	struct epoll_event ev, out[4];
+	if (ep < 0 || pipe(a) != 0) return -1;
+	ev.events = EPOLLIN; ev.data.u64 = 7;
+	ok &= epoll_ctl(ep, EPOLL_CTL_ADD, a[0], &ev) == 0;
+	ok &= epoll_ctl(ep, EPOLL_CTL_ADD, a[0], &ev) == -1 && errno == EEXIST;
+	ev.data.u64 = 9;
+	ok &= epoll_ctl(ep, EPOLL_CTL_MOD, a[0], &ev) == 0;
+	ok &= write(a[1], "x", 1) == 1;
+	n = epoll_wait(ep, out, 4, 0);
+	ok &= n == 1 && out[0].data.u64 == 9 && (out[0].events & EPOLLIN);      /* level triggered, data of the last MOD */
+	n = epoll_wait(ep, out, 4, 0);
+	ok &= n == 1;
+	ok &= epoll_ctl(ep, EPOLL_CTL_DEL, a[0], NULL) == 0;
+	ok &= epoll_ctl(ep, EPOLL_CTL_DEL, a[0], NULL) == -1 && errno == ENOENT;
+	ok &= epoll_ctl(ep, EPOLL_CTL_MOD, a[0], &ev) == -1 && errno == ENOENT;
+	ok &= epoll_wait(ep, out, 4, 0) == 0;
+	ok &= epoll_ctl(ep, EPOLL_CTL_ADD, a[0], &ev) == 0;
+	close(a[0]); close(a[1]);                                                   /* closing drops the registration */
+	ok &= epoll_wait(ep, out, 4, 0) == 0;
+	if (pipe(b) != 0) return -1;
+	ok &= epoll_ctl(ep, EPOLL_CTL_ADD, b[0], &ev) == 0;                          /* the number (usually the same) is free again */
+	close(b[0]); close(b[1]); close(ep);
+	return ok;
+}
+
 #define P(name, val) printf("Definition %s : Z := (%lld)%%Z.\n", name, (long long)(val))
 int main(void)
 {
@@ -129,6 +160,8 @@ int main(void)
 		P("LOOP_FIX_POLLADD", a);
 		P("LOOP_FIX_SIGDEL", b);
 		P("LOOP_FIX_RUNTODO", c);
+		/* 1 when the real kernel's epoll shows the semantics the harness' virtual interest list implements */
+		P("LOOP_KERNEL_EPOLL_AS_MODELLED", probe_kernel());
 	}
 	if (l) {
 		qb_loop_destroy(l);
